@@ -192,6 +192,10 @@ Rearm(sh, s) ==
                   !.armId[s] = @ + 1]
   ELSE sh
 
+\* fd-backed, no transient children: its (re)registration goes straight to the poller
+PlainFdSource(sh, s) == /\ ~IsTimer(sh, s) /\ sh.life[s] = "in" /\ ~sh.fuzzy[s]
+                        /\ \A c \in DOMAIN sh.decl[s].children : sh.decl[s].children[c].transient = 0
+
 Touch(sh, s) == IF sh.inDisp THEN [sh EXCEPT !.touched = @ \cup {s}] ELSE sh
 
 UpdOp(sh, ev) ==
@@ -255,6 +259,11 @@ UpdOpret(sh, ev) ==
     [] ev.op = "enable" /\ ~ok /\ co.live /\ (sh.en[tgt] \/ co.ctx = tgt) ->
          \* enabling the running source (or an enabled timer) is outside the contract
          [base EXCEPT !.misuse = TRUE]
+    \* update() of a disabled fd-backed source: nothing is registered, the re-registration fails (ENOENT) and changes
+    \* nothing; if it "succeeds" the source is back in the poller although nobody enabled it (flagged in ViolOpret)
+    [] ev.op = "update" /\ co.live /\ co.ctx # tgt /\ ~sh.en[tgt] /\ PlainFdSource(sh, tgt) ->
+         IF ok THEN [base EXCEPT !.fuzzy[tgt] = TRUE]
+         ELSE [base EXCEPT !.faultSeen = TRUE, !.cmpSnap = co.ctx = 0]
     [] ev.op = "update" /\ ok /\ co.live ->
          IF co.ctx = tgt THEN [base EXCEPT !.deferred[tgt] = "reregister",
                                            !.misuse = @ \/ sh.deferred[tgt] # "continue"]
@@ -380,7 +389,10 @@ UpdProbeCall(sh, ev) ==
       dupEnable == /\ ev.e = "reg" /\ ev.r = "err" /\ ev.inj = 0 /\ OpOn(sh)
                    /\ CurOp(sh).op = "enable" /\ CurOp(sh).live /\ CurOp(sh).tgt = ev.s /\ CurOp(sh).ctx # ev.s
                    /\ sh.en[ev.s] /\ ~IsTimer(sh, ev.s)
-      b0 == IF dupEnable THEN [sh EXCEPT !.regErrSeen = TRUE, !.faultSeen = TRUE]
+      updDisabled == /\ ev.e = "rereg" /\ ev.r = "err" /\ ev.inj = 0 /\ OpOn(sh)
+                     /\ CurOp(sh).op = "update" /\ CurOp(sh).live /\ CurOp(sh).tgt = ev.s /\ CurOp(sh).ctx # ev.s
+                     /\ ~sh.en[ev.s] /\ PlainFdSource(sh, ev.s)
+      b0 == IF dupEnable \/ updDisabled THEN [sh EXCEPT !.regErrSeen = TRUE, !.faultSeen = TRUE]
             ELSE IF ev.r = "err" THEN [sh EXCEPT !.regErrSeen = TRUE, !.faultSeen = TRUE,
                                             !.fuzzy[ev.s] = TRUE,
                                             !.c16off = @ \/ ev.inj = 0] ELSE sh
@@ -616,6 +628,9 @@ ViolOpret(sh, ev) ==
   \cup If(tokOp /\ ev.r \notin {"notok"} /\ ~co.live /\ ev.r # "invalid" /\ ev.r # "panic",
           {<<"C06", "dead_token_accepted">>})
   \cup If(tokOp /\ co.live /\ ev.r = "invalid", {<<"C07", "live_token_rejected">>, <<"C06", "live_token_rejected">>})
+  \cup If(ev.op = "update" /\ ev.r = "ok" /\ co.live /\ co.tgt \in sh.S /\ co.ctx # co.tgt /\ ~sh.en[co.tgt]
+          /\ PlainFdSource(sh, co.tgt) /\ ~sh.faultSeen,
+          {<<"C16", "update_registered_a_disabled_source">>, <<"C07", "update_registered_a_disabled_source">>})
   \cup If(ev.op = "insert" /\ ev.r = "err" /\ ~sh.regErrSeen, {<<"C15", "insert_failed_without_cause">>, <<"C16", "fd_not_reinsertable">>})
   \cup If(ev.op = "into_inner" /\ ev.r = "panic" /\ LifeOf(sh, co.tgt) = "out" /\ ~InPe(sh, co.tgt),
           {<<"C06", "into_inner_after_removal_failed">>})
@@ -717,6 +732,12 @@ ViolSnap(sh, ev) ==
           {<<"C06", "removed_source_left_registrations">>})
   \* (kernel entries of the fds of the rejected source itself are its own business: a composite written with `?` leaves
   \*  the sub-sources it had registered before the failing step in the poller -- they are "fuzzy" from then on)
+  \* C20: the key the kernel holds for a registered fd is the key of the registration's token (same fd, interest and
+  \* mode as expected, but another slot id / generation in the epoll data)
+  \cup If(~sh.c16off /\ \E e \in SnapEpoll6(ev), x \in ExpectedEpoll(sh) :
+               /\ e[1] = x[1] /\ e[2] = x[2] /\ e[3] = x[3] /\ e[4] = x[4] /\ e[1] \notin FuzzyFds(sh)
+               /\ (e[5] # x[5] \/ e[6] # x[6]),
+          {<<"C20", "kernel_key_differs_from_token">>})
   \cup If(sh.cmpSnap /\ sh.lastSnap.valid
           /\ (\/ {e \in SnapEpoll6(sh.lastSnap) : e[1] \notin FuzzyFds(sh)} # {e \in SnapEpoll6(ev) : e[1] \notin FuzzyFds(sh)}
               \/ SnapDiffers([sh.lastSnap EXCEPT !.epoll = <<>>], [ev EXCEPT !.epoll = <<>>])),
